@@ -114,7 +114,7 @@ func runC18(c *eng.Ctx) {
 		c.R.End(idx, eng.Hash("c18-reserved", ra.name), true)
 	}
 	// (b) linkage
-	biNames := []string{"BIpos_K0", "BIin_K1", "BIpos_K2", "BIin_K3", "BIpos_S0", "BIin_S4", "BIpos_S5", "BIin_S5", "BIdep_S6", "BIkeyedOpt_S7", "VoidScope", "BIopt_S6", "BIopt_K3"}
+	biNames := []string{"BIpos_K0", "BIin_K1", "BIpos_K2", "BIin_K3", "BIpos_S0", "BIin_S4", "BIpos_S5", "BIin_S5", "BIdep_S6", "BIkeyedOpt_S7", "VoidScope", "BIopt_S6", "BIopt_K3", "BIanon_S6", "BIanon_K3"}
 	n := c.Pick(300, 8000)
 	for k := 0; k < n; k++ {
 		idx, mine := cr.next()
